@@ -26,10 +26,12 @@ META = {
         "(g) text level, through the real lxml / expat front ends (harness/textpath.py): a comment or a processing instruction inserted at EVERY character-data / between-tags position (symbolic position), "
         "every literal character of character data and of attribute values replaced by a character reference, every character-data run wrapped in CDATA, white space before every tag end, quote style, "
         "5 encodings with matching declarations; both handlers, outcome compared with the unrewritten document's",
+        "(i) XInclude through real files and from_path(process_xinclude=True): every element with children moved to an included XML file, every childless element's text (plus a non-ASCII character) moved to an included "
+        "text file in utf-8 / iso-8859-1; outcome compared with the inline twin of the same document",
         "(h) text level: each of 4 white-space strings around the lexical value of every non-string leaf and attribute (ints, booleans, enums, dates, decimals, QNames, hexBinary, base64Binary) of the serialised pool documents",
         "(f) inside a selector-chosen subtree every in-scope prefix is shadowed (re-bound to a dummy URI) and replaced by a fresh one; later siblings keep using the outer binding",
     ],
-    "outside": ["XInclude file loading", "text-level rewrites are applied ONE at a time to the serialised pool documents (compositions only at the event level); "
+    "outside": ["XInclude beyond one inclusion per document (nested includes, xpointer, fallback)", "text-level rewrites are applied ONE at a time to the serialised pool documents (compositions only at the event level); "
                 "the C parsers themselves are executed, not modelled: for the text-level drivers the solver only enumerates the position"],
     "stubs": ["SAX seam", "CrossHair model pack", "XmlContext.get_subclasses(object) iterates the model pool"],
     "assumptions": [],
@@ -308,6 +310,43 @@ def _text_encoding(doc, e):
     return out
 
 
+_XIN = {}
+
+
+def _xi_n():
+    if _DOC not in _XIN:
+        with untraced():
+            _XIN[_DOC] = textpath.n_elements(_DOC)
+    return _XIN[_DOC]
+
+
+def _text_xinclude(doc, k, e):
+    cls, _text = textpath.doc_text(doc)
+    inline, files = textpath.xinclude_variants(doc, k, e)
+    out = {"ok": True, "main": files["main.xml"][:300].decode(errors="replace"), "files": sorted(files)}
+    for h in ("lxml", "native"):
+        base = _outcome(inline, cls, h)
+        try:
+            got = ("ok", textpath.parse_xinclude(files, cls, h))
+        except Exception as ex:  # noqa: BLE001
+            got = ("err", type(ex).__name__)
+        if base != got:
+            out["ok"] = False
+            out[h] = {"inline": repr(base)[:300], "split": repr(got)[:300]}
+    return out
+
+
+def text_xinclude(k: int, e: int) -> bool:
+    """
+    pre: 0 <= k < _xi_n()
+    pre: 0 <= e < len(textpath.XI_ENCODINGS)
+    post: _
+    """
+    ck, ce = concretize(k, max(1, _xi_n())), concretize(e, len(textpath.XI_ENCODINGS))
+    with untraced():
+        return result(_text_xinclude(_DOC, ck, ce)["ok"])
+
+
 _PADS = [" ", "\n", "\t", "\r\n  "]
 
 
@@ -372,7 +411,7 @@ def text_encoding(e: int) -> bool:
 
 
 PRE = {}
-EXPLAIN = {"text_pad": lambda k, w: _text_pad(_DOC, k, w), "text_rewrite": lambda k: _text_rewrite(_DOC, PART.get("kind", "comment"), k), "text_encoding": lambda e: _text_encoding(_DOC, e)}
+EXPLAIN = {"text_xinclude": lambda k, e: _text_xinclude(_DOC, k, e), "text_pad": lambda k, w: _text_pad(_DOC, k, w), "text_rewrite": lambda k: _text_rewrite(_DOC, PART.get("kind", "comment"), k), "text_encoding": lambda e: _text_encoding(_DOC, e)}
 
 
 def plan(tier):
@@ -385,6 +424,8 @@ def plan(tier):
                 continue  # rewrite kind not applicable to this document (would be a vacuous harness)
             jobs.append(Job("text_rewrite", {"doc": doc, "kind": kind}, 300, 30, note="real lxml / expat front ends; position symbolic"))
         jobs.append(Job("text_encoding", {"doc": doc}, 120, 30, note="real lxml / expat front ends"))
+        if textpath.n_elements(doc) and textpath.et_safe(doc):
+            jobs.append(Job("text_xinclude", {"doc": doc}, 300, 30, note="real file route: every element split off with XInclude (xml include / text include in 2 encodings)"))
     for doc in sorted(set(NONSTR) | set(NONSTR_ATTR)):
         if doc in mutate.DOCS and _pad_spots(doc):
             jobs.append(Job("text_pad", {"doc": doc}, 120, 30, note="real front ends: white space around the lexical value of every non-string leaf / attribute"))
